@@ -240,8 +240,8 @@ def gen_batches(rng, n_real, sizes=(4, 2, 1), masked=True, fully_masked=0.12):
 
 
 def configs(tier, rng):
-  n = {'quick': 34, 'thorough': 260, 'search': 700}.get(tier, 34)
-  seeds = [rng.randrange(1, 10 ** 6) for _ in range(2 if tier == 'quick' else 8)]
+  n = {'quick': 34, 'thorough': 800, 'search': 700}.get(tier, 34)
+  seeds = [rng.randrange(1, 10 ** 6) for _ in range(2 if tier == 'quick' else 10)]
   out = []
   fixed = [
       ('evaluate_model', []),                                                       # empty
